@@ -9,7 +9,7 @@ use crate::framework::{guard, CaseReport, Monitor, Tier};
 use crate::jobj;
 use crate::json::Json;
 use crate::model::arr::{Arr, ArrGen};
-use crate::model::cost::{gen_cost, Cost};
+use crate::model::cost::{gen_cost_z, Cost};
 use crate::rng::Rng;
 
 pub struct C16;
@@ -79,7 +79,7 @@ impl Monitor for C16 {
             Shape::Single | Shape::RefAndRc => 1,
             _ => rng.usize(1, 4),
         };
-        let parts: Vec<Part> = (0..nparts).map(|_| Part { arr: g.any(&mut rng, 1), cost: gen_cost(&mut rng, 15, false) }).collect();
+        let parts: Vec<Part> = (0..nparts).map(|_| Part { arr: g.any(&mut rng, 1), cost: gen_cost_z(&mut rng, 15) }).collect();
         let shape_name = match shape {
             Shape::Single => "RBF",
             Shape::AggregateOfRbf => "Aggregate<RBF>",
